@@ -518,7 +518,7 @@ func c19Enumerate(depth int, full bool, fn func(h *c19History)) {
 
 func runC19(c *vf.Ctx) {
 	thorough := c.Tier == "thorough"
-	c.Rule = "explicit enumeration of all histories of AddEmptyTrack(timescale in {1,90000,2^32-1}, media in {video,audio,subtitle,stpp,text,wvtt,meta}, language in {en,sv,und,eng,en-US,zh-Hant-TW}) each followed by the matching Set{AVC,HEVC,AAC,AC3,EC3,Wvtt,Stpp}Descriptor call (17 track kinds incl. avc1/avc3 with and without parameter sets, two SPS/PPS sets, hvc1/hev1 with SEI, AAC-LC/HE-AAC, no descriptor); every prefix is a checked state: ids/trex/next-track-id, handler and media header, timescale and language carriage, sample entry contents, Encode==EncodeSW, Size, decode by both decoders, re-encode, deep equality with the built tree, and a fragment round trip for every track id; plus the full parameter products of SetAACDescriptor (13 frequencies x LC/HE/HEv2), SetAC3Descriptor (fscod x acmod x lfeon x bit rate code x bsmod), SetEC3Descriptor (data rate x fscod x acmod x lfeon x dependent substream) and SetStppDescriptor (namespace x schema location x auxiliary mime types) as the only track and as second track. Distinct = distinct encoded inits."
+	c.Rule = "explicit enumeration of all histories of AddEmptyTrack(timescale in {1,90000,2^32-1}, media in {video,audio,subtitle,stpp,text,wvtt,meta}, language in {en,sv,und,eng,en-US,zh-Hant-TW}) each followed by the matching Set{AVC,HEVC,AAC,AC3,EC3,Wvtt,Stpp}Descriptor call (17 track kinds incl. avc1/avc3 with and without parameter sets, two SPS/PPS sets, hvc1/hev1 with SEI, AAC-LC/HE-AAC, no descriptor); every prefix is a checked state: ids/trex/next-track-id, handler and media header, timescale and language carriage, sample entry contents, Encode==EncodeSW, Size, decode by both decoders, re-encode, deep equality with the built tree, and a fragment round trip for every track id; plus the full parameter products of SetAACDescriptor (13 frequencies x LC/HE/HEv2), SetAC3Descriptor (fscod x acmod x lfeon x bit rate code x bsmod), SetEC3Descriptor (data rate x fscod x acmod x lfeon x dependent substream) and SetStppDescriptor (namespace x schema location x auxiliary mime types) as the only track and as second track; every three-letter lower-case language code (all 17 576) and ten other tag shapes. Distinct = distinct encoded inits."
 	var n int64
 	run := func(depth int, full bool) {
 		var hs []*c19History
@@ -555,6 +555,35 @@ func runC19(c *vf.Ctx) {
 		c.Sample(hs[len(hs)/3])
 		n += int64(len(hs))
 		c.Set("descriptor_parameter_histories", len(hs))
+	}
+	// language tags: every three-letter lower-case code (the complete domain of the packed mdhd field) and a set of other
+	// tag shapes, as the only track (audio) and as second track
+	{
+		var hs []*c19History
+		add := func(lang string) {
+			op := c19Op{Kind: 6, TS: 48000, Lang: lang}
+			hs = append(hs, &c19History{Ops: []c19Op{op}})
+			if len(hs)%7 == 0 {
+				hs = append(hs, &c19History{Ops: []c19Op{{Kind: 0, TS: 90000, Lang: "und"}, op}})
+			}
+		}
+		for a := byte('a'); a <= 'z'; a++ {
+			for b := byte('a'); b <= 'z'; b++ {
+				for d := byte('a'); d <= 'z'; d++ {
+					add(string([]byte{a, b, d}))
+				}
+			}
+		}
+		for _, l := range []string{"en", "zz", "az", "en-US", "zh-Hant-TW", "x-zz", "de-CH-1996", "sr-Latn", "zzzz", "i-klingon"} {
+			add(l)
+		}
+		local := make([]string, len(hs))
+		c.Parallel(len(hs), func(i int) { local[i] = c19Run(c, hs[i]) })
+		for _, k := range local {
+			c.OutcomeN("language sweep: "+k, 1)
+		}
+		n += int64(len(hs))
+		c.Set("language_histories", len(hs))
 	}
 	if thorough {
 		c.SetBudget(10 * 60 * 1e9)
